@@ -173,6 +173,11 @@ func readString(r io.Reader) (string, error) {
 		return "", err
 	}
 
+	// A length prefix larger than what is left to read is corrupt; do not allocate for it
+	if lr, ok := r.(interface{ Len() int }); ok && int64(length) > int64(lr.Len()) {
+		return "", io.ErrUnexpectedEOF
+	}
+
 	// Read string data
 	data := make([]byte, length)
 	if _, err := io.ReadFull(r, data); err != nil {
@@ -287,6 +292,10 @@ func deserializeBinaryFormat(data []byte) (*CompiledTemplate, error) {
 	var astLength uint32
 	if err := binary.Read(r, binary.LittleEndian, &astLength); err != nil {
 		return nil, fmt.Errorf("failed to read AST length: %w", err)
+	}
+
+	if int64(astLength) > int64(r.Len()) {
+		return nil, fmt.Errorf("failed to read AST data: %w", io.ErrUnexpectedEOF)
 	}
 
 	compiled.AST = make([]byte, astLength)
